@@ -497,7 +497,14 @@ def checkNonzeroV : Val → M Val
   | .fxp d => do let r ← checkNonzero d; pure (.lcb r)
   | _ => raise .attribute       -- LinCombBool has no check_nonzero
 
-/-- `LinComb.__lt__(x, other)` etc. with an arbitrary right operand -/
+/-- the strict comparisons: `LinComb.__lt__` / `__gt__` return `NotImplemented` for a `LinCombFxp`
+operand (their `± 1` would be the fixed-point 1.0, not one unit in the last place) -/
+def Cmp.strict : Cmp → Bool
+  | .lt | .gt => true
+  | _ => false
+
+/-- `LinComb.__lt__(x, other)` etc. with an arbitrary right operand: the method body past the
+`NotImplemented` test (`cmpV` never calls it with a strict comparison and a `LinCombFxp`) -/
 def cmpLV (op : Cmp) (x : LinComb) (other : Val) : M Val := do
   match op with
   | .lt => do let d ← subV other (.lc x); let d ← subV d (.int 1); checkPositiveV d
@@ -514,7 +521,14 @@ def cmpLL (op : Cmp) (x y : LinComb) : M LinComb :=
 
 def cmpV (op : Cmp) (a b : Val) : M Val := do
   match a with
-  | .lc x => cmpLV op x b
+  | .lc x =>
+    match b with
+    | .fxp y =>
+      -- `x < y`, `x > y`: `LinComb.__lt__/__gt__` → NotImplemented → reflected
+      -- `LinCombFxp.__gt__/__lt__(y, x)` = `y.lc > _ensurefxp(x).lc`
+      if op.strict then do let z ← ensurefxp a; let r ← cmpLL op.mirror y z; pure (.lcb r)
+      else cmpLV op x b
+    | _ => cmpLV op x b
   | .lcb x => do let y ← ensurebool b; let r ← cmpLL op x y; pure (.lcb r)
   | .fxp x => do let y ← ensurefxp b; let r ← cmpLL op x y; pure (.lcb r)
   | .int _ | .flt _ _ | .none | .list _ | .tuple _ =>
@@ -538,6 +552,15 @@ def smallIntSame : Val → Val → Bool
   | .none, .none => true
   | _, _ => false
 
+/-- the end of `if_then_else`: `if isinstance(truev, LinCombBool) and isinstance(falsev, LinCombBool):
+return LinCombBool(ret, False)`, else `return ret` — a selection between two booleans is a boolean
+(`ret = falsev + cond * (truev - falsev)` is a `LinComb` for two `LinCombBool`s) -/
+def iteTag (t f ret : Val) : M Val :=
+  match t, f, ret with
+  | .lcb _, .lcb _, .lc z => do let b ← mkBool z false; pure (.lcb b)
+  | .lcb _, .lcb _, _ => raise .runtime      -- `LinCombBool(x)` on something else than a `LinComb` (does not happen: `B + L` is an `L`)
+  | _, _, _ => pure ret
+
 def iteAux (cond : LinComb) : Nat → Val → Val → M Val
   | 0, _, _ => raise .unmodelled
   | fuel+1, t, f => do
@@ -554,7 +577,8 @@ def iteAux (cond : LinComb) : Nat → Val → Val → M Val
         | _ => pure f)
       let d ← subV t f'
       let prod ← mulLV cond d          -- B.__mul__: self.lc * other
-      addV f' prod
+      let ret ← addV f' prod
+      iteTag t f' ret
 
 /-- depth of list nesting, used as fuel -/
 def Val.depth : Val → Nat
